@@ -686,15 +686,62 @@ struct CObs {
 	ok: bool,
 }
 
-fn conc_execute(base: &Path, sc: &uni::Scratch, choices: &[usize], fill: u32) -> (crate::sched::Verdict, Vec<crate::sched::Step>, Vec<(String, String)>, Vec<CObs>, bool) {
+fn conc_execute(base: &Path, sc: &uni::Scratch, choices: &[usize], fill: u32, variant: u8) -> (crate::sched::Verdict, Vec<crate::sched::Step>, Vec<(String, String)>, Vec<CObs>, bool) {
 	use std::sync::{Arc, Mutex};
 	let d = sc.fresh("c");
 	uni::copy_dir(base, &d);
 	let store = Arc::new(open_store(&d));
 	let log: Arc<Mutex<Vec<CObs>>> = Arc::new(Mutex::new(vec![]));
-	let names = ["reader-iter", "writer", "reader-get"];
+	let names: Vec<&str> = if variant == 0 { vec!["reader-iter", "writer", "reader-get"] } else { vec!["reader-writes", "writer-large"] };
 	let sched = crate::sched::Scheduler::new(&names, choices.to_vec());
 	let mut bodies: Vec<Box<dyn FnOnce() + Send>> = vec![];
+	if variant == 1 {
+		// A': holds an iterator (read view) and, before closing it, commits a small batch of its own
+		// (a thread that already holds a transaction is let through while a resize is pending)
+		{
+			let store = store.clone();
+			let log = log.clone();
+			bodies.push(Box::new(move || {
+				let push = |what: String, ok: bool| log.lock().unwrap().push(CObs { thread: "reader-writes".into(), what, ok });
+				match store.iter(None, |k, v| Ok((k.to_vec(), v.len()))) {
+					Ok(it) => {
+						grin_util::verif::sched_point("iterator-open");
+						let e1 = store.exists(None, &0u32.to_be_bytes());
+						push(format!("nested exists -> {:?}", e1.as_ref().map_err(|e| format!("{:?}", e))), matches!(e1, Ok(true)));
+						let w = store.batch().and_then(|mut b| {
+							b.put_ser(None, b"reader-note", &val(7))?;
+							b.commit()
+						});
+						push(format!("own small batch while the view is open -> {:?}", w.as_ref().map_err(|e| format!("{:?}", e))), w.is_ok());
+						let keys: Vec<Vec<u8>> = it.filter_map(|x| x.ok()).map(|x| x.0).collect();
+						let fills = keys.iter().filter(|k| k.len() == 4).count() as u32;
+						let group: Vec<bool> = [&b"large-0"[..], b"large-1", b"large-2", b"pair-a", b"pair-b"].iter().map(|n| keys.iter().any(|k| k.as_slice() == *n)).collect();
+						push(format!("iterator drained: {} fill keys, writer's batch {:?}", fills, group), fills == fill && group.iter().all(|x| *x == group[0]));
+					}
+					Err(e) => push(format!("iter failed {:?}", e), false),
+				}
+			}));
+		}
+		// B': a batch larger than what is left of the old map: it may only be let in once the map
+		// has been enlarged, and must then succeed
+		{
+			let store = store.clone();
+			let log = log.clone();
+			bodies.push(Box::new(move || {
+				let push = |what: String, ok: bool| log.lock().unwrap().push(CObs { thread: "writer-large".into(), what, ok });
+				let r = store.batch().and_then(|mut b| {
+					b.put_ser(None, b"large-0", &big(200))?;
+					b.put_ser(None, b"large-1", &big(201))?;
+					b.put_ser(None, b"large-2", &big(202))?;
+					b.put_ser(None, b"pair-a", &val(4))?;
+					b.put_ser(None, b"pair-b", &val(5))?;
+					b.commit()
+				});
+				push(format!("batch of 3 x 48 KiB + pair -> {:?}", r.as_ref().map_err(|e| format!("{:?}", e))), r.is_ok());
+			}));
+		}
+	}
+	if variant == 0 {
 	{
 		// A: holds an iterator (read view) and makes nested reads while it is open
 		let store = store.clone();
@@ -757,6 +804,7 @@ fn conc_execute(base: &Path, sc: &uni::Scratch, choices: &[usize], fill: u32) ->
 			}
 		}));
 	}
+	}
 	let (verdict, trace, panics) = sched.run(bodies);
 	let obs = log.lock().unwrap().clone();
 	let mut final_ok = true;
@@ -767,10 +815,27 @@ fn conc_execute(base: &Path, sc: &uni::Scratch, choices: &[usize], fill: u32) ->
 				final_ok = false;
 			}
 		}
+		// what a thread was told is committed must be there (a failed batch is reported on its own)
+		let told_ok = |thread: &str, what: &str| obs.iter().any(|o| o.thread == thread && o.what.starts_with(what) && o.ok);
 		let a = store.get_ser::<Val>(None, b"pair-a", None).ok().flatten().is_some();
 		let b = store.get_ser::<Val>(None, b"pair-b", None).ok().flatten().is_some();
-		if !(a && b) {
+		if a != b {
 			final_ok = false;
+		}
+		if variant == 0 && told_ok("writer", "batch put/put/commit") && !(a && b) {
+			final_ok = false;
+		}
+		if variant == 1 {
+			if told_ok("writer-large", "batch of 3") {
+				for k in [&b"large-0"[..], b"large-1", b"large-2", b"pair-a", b"pair-b"] {
+					if !matches!(store.get_ser::<Val>(None, k, None), Ok(Some(_))) {
+						final_ok = false;
+					}
+				}
+			}
+			if told_ok("reader-writes", "own small batch") && !matches!(store.get_ser::<Val>(None, b"reader-note", None), Ok(Some(_))) {
+				final_ok = false;
+			}
 		}
 		drop(store);
 		let _ = std::fs::remove_dir_all(&d);
@@ -805,7 +870,7 @@ fn concurrent(tier: Tier, shard: usize, n: usize) -> Report {
 		if std::env::var("GV_DEBUG").is_ok() {
 			eprintln!("calibrating fill {}", cand);
 		}
-		let (v0, t0, _, _, _) = conc_execute(&b0, &sc, &[], cand);
+		let (v0, t0, _, _, _) = conc_execute(&b0, &sc, &[], cand, 0);
 		if std::env::var("GV_DEBUG").is_ok() {
 			eprintln!("  default: {:?} steps {}", v0, t0.len());
 		}
@@ -817,7 +882,7 @@ fn concurrent(tier: Tier, shard: usize, n: usize) -> Report {
 				// then the writer instead of the iterator thread
 				let mut pre: Vec<usize> = t0[..=at].iter().map(|s| s.chosen).collect();
 				pre.push(1);
-				let (v, trace, _, _, _) = conc_execute(&b0, &sc, &pre, cand);
+				let (v, trace, _, _, _) = conc_execute(&b0, &sc, &pre, cand, 0);
 				dead = !matches!(v, crate::sched::Verdict::Completed);
 				hit = trace.iter().any(|s| s.what.starts_with("lmdb-resize"));
 				if std::env::var("GV_DEBUG").is_ok() {
@@ -840,17 +905,21 @@ fn concurrent(tier: Tier, shard: usize, n: usize) -> Report {
 	fn preempt(trace: &[crate::sched::Step], upto: usize) -> usize {
 		trace[..upto].iter().filter(|s| s.running.map(|r| s.enabled.contains(&r) && s.enabled[s.chosen] != r).unwrap_or(false)).count()
 	}
-	let mut stack: Vec<Vec<usize>> = vec![vec![]];
-	let mut top = 0usize;
 	let cap = tier.pick(3_000u64, 60_000);
 	let mut with_resize = 0u64;
+	for variant in [0u8, 1u8] {
+	let vname = if variant == 0 { "concurrent" } else { "concurrent2" };
+	let mut stack: Vec<Vec<usize>> = vec![vec![]];
+	let mut top = 0usize;
+	let mut done_here = 0u64;
 	while let Some(prefix) = stack.pop() {
-		if rep.evaluations >= cap {
+		if done_here >= cap {
 			rep.capped = Some(format!("execution cap {}", cap));
 			break;
 		}
 		let t_exec = std::time::Instant::now();
-		let (verdict, trace, panics, obs, final_ok) = conc_execute(&base, &sc, &prefix, fill);
+		let (verdict, trace, panics, obs, final_ok) = conc_execute(&base, &sc, &prefix, fill, variant);
+		done_here += 1;
 		if std::env::var("GV_DEBUG").is_ok() {
 			eprintln!("exec {} prefix_len {} -> {:?} steps {} in {:?}", rep.evaluations, prefix.len(), std::mem::discriminant(&verdict), trace.len(), t_exec.elapsed());
 		}
@@ -859,7 +928,7 @@ fn concurrent(tier: Tier, shard: usize, n: usize) -> Report {
 		rep.states += 1;
 		rep.transitions += trace.len() as u64;
 		let choices: Vec<usize> = trace.iter().map(|s| s.chosen).collect();
-		let case = json!({"choices": choices, "schedule": trace.iter().map(|s| s.what.clone()).collect::<Vec<_>>(), "observations": obs.iter().map(|o| format!("{}: {}", o.thread, o.what)).collect::<Vec<_>>()});
+		let case = json!({"harness": vname, "choices": choices, "schedule": trace.iter().map(|s| s.what.clone()).collect::<Vec<_>>(), "observations": obs.iter().map(|o| format!("{}: {}", o.thread, o.what)).collect::<Vec<_>>()});
 		let resized = trace.iter().any(|s| s.what.starts_with("lmdb-resize"));
 		if resized {
 			with_resize += 1;
@@ -867,11 +936,11 @@ fn concurrent(tier: Tier, shard: usize, n: usize) -> Report {
 		match &verdict {
 			crate::sched::Verdict::Completed => {}
 			crate::sched::Verdict::Deadlock(m) => {
-				rep.violation("concurrent:deadlock", format!("deadlock: {}", m), case.clone());
+				rep.violation(format!("{}:deadlock", vname), format!("deadlock: {}", m), case.clone());
 				break;
 			}
 			crate::sched::Verdict::Livelock(m) => {
-				rep.violation("concurrent:livelock", format!("threads wait for each other forever: {}", m), case.clone());
+				rep.violation(format!("{}:livelock", vname), format!("threads wait for each other forever: {}", m), case.clone());
 				break;
 			}
 			crate::sched::Verdict::Divergence(m) | crate::sched::Verdict::Stuck(m) => {
@@ -880,17 +949,17 @@ fn concurrent(tier: Tier, shard: usize, n: usize) -> Report {
 			}
 		}
 		for (t, m) in &panics {
-			rep.violation(format!("concurrent:panic:{}", t), m.clone(), case.clone());
+			rep.violation(format!("{}:panic:{}", vname, t), m.clone(), case.clone());
 		}
 		for o in &obs {
 			if !o.ok {
-				rep.violation(format!("concurrent:{}:{}", o.thread, o.what.split(" ->").next().unwrap_or("").split(':').next().unwrap_or("")), format!("{}: {}", o.thread, o.what), case.clone());
+				rep.violation(format!("{}:{}:{}", vname, o.thread, o.what.split(" ->").next().unwrap_or("").split(':').next().unwrap_or("")), format!("{}: {}", o.thread, o.what), case.clone());
 			}
 		}
 		if !final_ok {
-			rep.violation("concurrent:committed-write-lost", "after all threads finished a committed value (or half of the pair) is missing".to_string(), case.clone());
+			rep.violation(format!("{}:committed-write-lost", vname), "after all threads finished a committed value (or half of the pair) is missing".to_string(), case.clone());
 		}
-		rep.outcome(&format!("completed:resize-{}", if resized { "deferred-to-waiter-thread" } else { "immediate-or-not-needed" }));
+		rep.outcome(&format!("{}:completed:resize-{}", vname, if resized { "deferred-to-waiter-thread" } else { "immediate-or-not-needed" }));
 		if rep.samples.len() < 2 && resized {
 			rep.sample(case.clone());
 		}
@@ -917,6 +986,7 @@ fn concurrent(tier: Tier, shard: usize, n: usize) -> Report {
 			}
 		}
 	}
+	}
 	rep.extra.insert("schedules_with_deferred_resize".into(), json!(with_resize));
 	rep
 }
@@ -928,7 +998,7 @@ impl Engine for C18 {
 	fn meta(&self, _tier: Tier) -> Meta {
 		Meta {
 			level: "model_checking",
-			rule: "(seq) explicit-state exploration: every sequence up to the depth bound over {batch, child (nesting <= 2), put (6 key/value/keyspace combinations over two key spaces), delete (3), commit, drop, reopen} executed on a real Store; after EVERY operation every key is read inside the innermost open level (get_ser, exists, iter) and through the Store (outside view) and compared with a nested-transaction map model (stack of overlays); memoised on (model state, remaining depth). (growth) every well-formed sequence of the length bound over {write 48 KiB value, write a pair, open iterator, drain iterator, reopen} on a store pre-filled to 65 % of its 1 MiB map, so that one or two automatic resizes happen with and without an open read view: no operation may fail, every committed value reads back byte-exact, an iterator sees exactly its snapshot. (crash) a kill at every crash point around the commit of a flat and of a nested batch writing a pair across two key spaces: after reopen the pair is visible entirely or not at all, entirely once commit returned, and earlier commits survive. (concurrent) under the controlled scheduler, every schedule up to the preemption bound of {thread A: open iterator, three nested reads, drain; thread B: a batch that needs the map enlarged and writes a pair; thread C: get + iterator} on a store filled just past the resize threshold, the resize waiter thread being a scheduled participant: no deadlock or livelock, every operation Ok, iterators see all fill keys and the pair entirely or not at all, nothing committed is lost.",
+			rule: "(seq) explicit-state exploration: every sequence up to the depth bound over {batch, child (nesting <= 2), put (6 key/value/keyspace combinations over two key spaces), delete (3), commit, drop, reopen} executed on a real Store; after EVERY operation every key is read inside the innermost open level (get_ser, exists, iter) and through the Store (outside view) and compared with a nested-transaction map model (stack of overlays); memoised on (model state, remaining depth). (growth) every well-formed sequence of the length bound over {write 48 KiB value, write a pair, open iterator, drain iterator, reopen} on a store pre-filled to 65 % of its 1 MiB map, so that one or two automatic resizes happen with and without an open read view: no operation may fail, every committed value reads back byte-exact, an iterator sees exactly its snapshot. (crash) a kill at every crash point around the commit of a flat and of a nested batch writing a pair across two key spaces: after reopen the pair is visible entirely or not at all, entirely once commit returned, and earlier commits survive. (concurrent) under the controlled scheduler, every schedule up to the preemption bound of {thread A: open iterator, three nested reads, drain; thread B: a batch that needs the map enlarged and writes a pair; thread C: get + iterator} on a store filled just past the resize threshold, the resize waiter thread being a scheduled participant: no deadlock or livelock, every operation Ok, iterators see all fill keys and the pair entirely or not at all, nothing committed is lost; and the same for {thread A': open iterator, nested read, commit a small batch of its own, drain; thread B': a batch of 3 x 48 KiB + a pair, more than the old map has left}.",
 			assumptions: vec![
 				"batches stay within the headroom the resize rule guarantees (<= 10 % of the map per batch)".into(),
 				"(concurrent) preemption bound 1 (quick) / 2 (thorough); scheduling points are util::RwLock operations (incl. the environment map), the LMDB writer lock, the two polling loops and thread start/exit of the resize waiter".into(),
